@@ -10,6 +10,8 @@
 (* Variables (one run of `_constraint(x0)`):                               *)
 (*   kind     "and" | "or" | "not"                                         *)
 (*   cs       the members, a sequence of functions on D;  n == Len(cs)     *)
+(*            (n = 0, the combinator of no member, is a legal boundary:    *)
+(*            and_() succeeds at once with x unchanged, or_() fails at once)*)
 (*   maxiter  the `maxiter` setting (the loop cap is maxiter*n, not_: maxiter)*)
 (*   rule     which success test and_ uses (see below)                     *)
 (*   x0       the input                                                    *)
@@ -71,7 +73,10 @@ Max(a, b) == IF a >= b THEN a ELSE b
 InitWith(kd, ms, mi, rl, s) ==
   /\ kind = kd /\ cs = ms /\ maxiter = mi /\ rule = rl /\ x0 = s
   /\ x = <<s>> /\ src = <<0>> /\ calls = 0 /\ same = 0
-  /\ pc = IF kd = "not" /\ mi = 0 THEN "fail" ELSE "call"   \* the first sweep of and_/or_ is unconditional
+  /\ pc = IF kd = "not" /\ mi = 0 THEN "fail"
+          ELSE IF Len(ms) = 0 THEN (IF kd = "and" THEN "ok" ELSE "fail")   \* and_() / or_() of NO member: no call at all;
+                                                                          \* "every member fixes x" holds, "some member" does not
+          ELSE "call"                                                     \* the first sweep of and_/or_ is unconditional
   /\ exit = "none" /\ ret = s /\ draws = << >>
 
 RECURSIVE SeqsOf(_, _)
@@ -199,6 +204,6 @@ AsIsOnlyUncertifiedChange ==
    member that produced its first iterate is idempotent *)
 Idempotent(f) == \A d \in DOMAIN f : f[f[d]] = f[d]
 AsIsHoldsForIdempotentHead ==
-  (Done /\ kind = "and" /\ exit = "onexit" /\ rule = "asis" /\ ~RandInWindow /\ Idempotent(cs[WinSrc]))
+  (Done /\ kind = "and" /\ exit = "onexit" /\ rule = "asis" /\ n > 0 /\ ~RandInWindow /\ Idempotent(cs[WinSrc]))
      => \A i \in 1..n : Fixes(i, ret)
 =============================================================================
